@@ -79,14 +79,25 @@ void FivePointsNumericalDerivative::updateDerivatives(const ParameterList& param
       catch (ConstraintException& ce)
       {
         // Left limit raised, use forward approximation:
-        p[0].setValue(value + h);
-        function_->setParameters(p);
-        f4_ = function_->getValue();
-        p[0].setValue(value + 2 * h);
-        function_->setParameters(p);
-        f5_ = function_->getValue();
-        der1_[i] = (f4_ - f3_) / h;
-        der2_[i] = (f5_ - 2. * f4_ + f3_) / (h * h);
+        try
+        {
+          p[0].setValue(value + h);
+          function_->setParameters(p);
+          f4_ = function_->getValue();
+          p[0].setValue(value + 2 * h);
+          function_->setParameters(p);
+          f5_ = function_->getValue();
+          der1_[i] = (f4_ - f3_) / h;
+          der2_[i] = (f5_ - 2. * f4_ + f3_) / (h * h);
+        }
+        catch (ConstraintException& ce2)
+        {
+          // Right limit raised too: no possibility to compute derivatives
+          if (p.size() > 1)
+            function_->setParameters(p.createSubList(1)); // the previous parameter may not have been reset yet
+          der1_[i] = log(-1);
+          der2_[i] = log(-1);
+        }
       }
     }
     // Reset last parameter and compute analytical derivatives if any.
